@@ -46,6 +46,12 @@ impl A {
             _ => panic!("not a u64: {self:?}"),
         }
     }
+    pub fn c(&self) -> char {
+        match self {
+            A::C(c) => *c,
+            _ => panic!("not a char: {self:?}"),
+        }
+    }
     pub fn show(&self) -> String {
         match self {
             A::S(s) => format!("{s:?}"),
@@ -64,18 +70,19 @@ impl A {
     }
     pub fn to_json(&self) -> Value {
         match self {
-            A::S(s) => json!({"t": "S", "hex": hex(s), "text": s}),
+            // `text` is for the reader only (escaped: a raw U+2028/U+0085 would split the one-line report)
+            A::S(s) => json!({"t": "S", "hex": hex(s), "text": s.escape_debug().to_string()}),
             A::U(u) => json!({"t": "U", "v": u.to_string()}),
             A::I(i) => json!({"t": "I", "v": i.to_string()}),
             A::F64(b) => json!({"t": "F64", "bits": b.to_string(), "text": format!("{:?}", f64::from_bits(*b))}),
             A::F32(b) => json!({"t": "F32", "bits": b.to_string(), "text": format!("{:?}", f32::from_bits(*b))}),
             A::B(b) => json!({"t": "B", "v": b}),
-            A::C(c) => json!({"t": "C", "v": *c as u32, "text": c.to_string()}),
+            A::C(c) => json!({"t": "C", "v": *c as u32, "text": c.escape_debug().to_string()}),
             A::Ip(i) => json!({"t": "Ip", "v": i.to_string()}),
             A::Pf(p) => json!({"t": "Pf", "v": p.to_string()}),
             A::Lc(v) => json!({"t": "Lc", "v": v.iter().map(|c| *c as u32).collect::<Vec<_>>()}),
             A::Lu(v) => json!({"t": "Lu", "v": v.iter().map(|u| u.to_string()).collect::<Vec<_>>()}),
-            A::Ls(v) => json!({"t": "Ls", "hex": v.iter().map(|s| hex(s)).collect::<Vec<_>>(), "text": v}),
+            A::Ls(v) => json!({"t": "Ls", "hex": v.iter().map(|s| hex(s)).collect::<Vec<_>>(), "text": v.iter().map(|s| s.escape_debug().to_string()).collect::<Vec<_>>()}),
         }
     }
     pub fn from_json(v: &Value) -> Option<A> {
